@@ -8,7 +8,7 @@
    abstract value [fsn] whose listing ORDER is arbitrary (every theorem
    quantifies over it); special files appear only as [Other] = skipped. *)
 From Coq Require Import List ZArith Bool Permutation Sorted.
-From NT Require Import Sx Rose FsLoad FsLoadProofs FsSaveLoadProofs FsCanonProofs.
+From NT Require Import Sx Rose FsLoad FsLoadProofs FsSaveLoadProofs FsCanonProofs FsVisitProofs.
 From NTGen Require Import Generated.
 Import ListNotations.
 Open Scope Z_scope.
@@ -35,6 +35,20 @@ Theorem C19_sort_model : forall (X : Type) (key : X -> text) (l : list X),
   (forall k, filter (fun y => text_eqb (key y) k) (sort_by key l) = filter (fun y => text_eqb (key y) k) l).
 Proof. intros X key l. exact (conj (sort_by_sorted key l) (conj (sort_by_perm key l) (fun k => sort_by_stable key k l))). Qed.
 Print Assumptions C19_sort_model.
+
+(* ---- the function with the loop structure of the source ([visit]: collect `files` and `dirs`,
+   sorted(files, key=name), sorted(dirs, key=Path), recursion after sorting, fuel = nesting
+   bound) is the structural function [load] all theorems below speak about -- for every root
+   path; sorting sibling directories by their Path (component lists) is sorting by name ---- *)
+Theorem C19_source_shaped_function_is_load : forall (sort : bool) (root : path) (listing : list fsn),
+  load_tree_from_fs sort root listing = load sort listing.
+Proof. exact load_tree_from_fs_is_load. Qed.
+Print Assumptions C19_source_shaped_function_is_load.
+
+Theorem C19_path_order_of_siblings_is_name_order : forall (parent : path) (a b : text),
+  path_ltb (parent ++ [a]) (parent ++ [b]) = text_ltb a b.
+Proof. exact path_ltb_siblings. Qed.
+Print Assumptions C19_path_order_of_siblings_is_name_order.
 
 (* ---- one node per file and folder, at the same path, with name / flag / size / mtime ----
    [dir_entries pre l]  = the (path, FileSystemEntry) pairs of all files and folders below a listing,
